@@ -28,7 +28,7 @@ SquatRev == IF squat /\ ~\E k \in PresentRevs : TmplOf(k) \o ".0" = NatSquat
             ELSE {}
 RevSeq == SetToSortSeq({MkRev(k, revs[k]) : k \in PresentRevs} \cup SquatRev, LAMBDA a, b : a.rank < b.rank)
 MkPod(o) == [new |-> FALSE, name |-> "foo-" \o ToString(o), ord |-> o, member |-> TRUE, match |-> TRUE, owner |-> "self", phase |-> "Running",
-             ready |-> TRUE, term |-> pods[o] > 4, rev |-> TmplOf((pods[o] - 1) % 4) \o ".0", identOK |-> TRUE, storOK |-> TRUE]
+             ready |-> TRUE, term |-> pods[o] > 4, rev |-> TmplOf((pods[o] - 1) % 4) \o ".0", identOK |-> TRUE, storOK |-> TRUE, uidOK |-> TRUE]
 PodSeq == SetToSortSeq({MkPod(o) : o \in {x \in 0..1 : pods[x] > 0}}, LAMBDA a, b : a.ord < b.ord)
 
 SnOf ==
